@@ -6,7 +6,7 @@
 
 use super::entry::{run_script, Depth, Script};
 use super::Prop;
-use crate::gen::faults;
+use crate::gen::{faults, faults_container};
 use crate::rt::*;
 
 pub struct C01 {
@@ -16,7 +16,8 @@ pub struct C01 {
 
 impl C01 {
     pub fn new(cx: &mut Ctx) -> C01 {
-        let max = if cx.quick() { 260_000 } else { 4_000_000 };
+        // mode "tiny": only the smallest seeds (Miri / valgrind volumes)
+        let max = if cx.mode == "tiny" { 5_000 } else if cx.quick() { 260_000 } else { 4_000_000 };
         let seeds = load_seed_fonts(max, true);
         let mut witnesses = Vec::new();
         for p in list_files("/verif/findings/witness", &["bin"]) {
@@ -90,6 +91,33 @@ impl Prop for C01 {
         } else {
             &self.seeds[rng.below(self.seeds.len())]
         };
+        // F6: container faults behind the compression layer (WOFF2 transforms, WOFF directory/zlib)
+        if rng.chance(1, 5) {
+            let name = f.name.clone();
+            if rng.chance(2, 3) {
+                let tt = if rng.chance(1, 3) { Some(super::c11::gen_ttfont(rng, true)) } else { super::c11::read_ttfont(&f.data, &name) };
+                if let Some(tt) = tt {
+                    let (data, desc) = faults_container::woff2_case(rng, cx, &tt);
+                    cx.class("fault:woff2-container");
+                    for d in desc.iter().skip(1) {
+                        // class = operator family only (no tags / numbers)
+                        let w0 = d.split(|c: char| c == '+' || c == '[' || c == '=' || c == ' ' || c == ':' || c == '@').next().unwrap_or("");
+                        let w0 = match w0 {
+                            "w2.glyf" | "w2.hmtx" | "w2.loca" | "w2.dir" | "w2.hdr" | "w2" => w0.to_string(),
+                            _ => "w2.other-table".to_string(),
+                        };
+                        let w1 = if w0 == "w2" { d.split(' ').filter(|w| w.chars().all(|c| c.is_ascii_alphabetic() || c == '_' || c == '-')).nth(0).unwrap_or("").to_string() } else { String::new() };
+                        cx.class(&format!("fault:{}{}{}", w0, if w1.is_empty() { "" } else { " " }, w1));
+                    }
+                    self.run(cx, rng, &name, &data, &desc);
+                    return;
+                }
+            } else if let Some((data, desc)) = faults_container::woff_case(rng, &f.data) {
+                cx.class("fault:woff-container");
+                self.run(cx, rng, &name, &data, &desc);
+                return;
+            }
+        }
         let mut data = f.data.clone();
         let nfaults = 1 + rng.small(3);
         let donors: Vec<&[u8]> = (0..2).map(|_| self.seeds[rng.below(self.seeds.len())].data.as_slice()).collect();
